@@ -15,6 +15,7 @@ import (
 	"os"
 
 	"github.com/kubewharf/kubebrain/pkg/storage"
+	imetrics "github.com/kubewharf/kubebrain/pkg/storage/metrics"
 
 	"kbverif/lib"
 )
@@ -635,6 +636,67 @@ func bigBatch(kv storage.KvStorage, n, keylen int, failing bool) (class string, 
 	return class, len(found), errStr
 }
 
+// wrapFault runs one call of the metrics wrapper over an engine whose matching call fails with `inject`, and reports
+// the class the wrapper's caller sees and whether the stored record survived.
+func wrapFault(scratch string, kind int, inject error) (observed string, intact bool, errStr string) {
+	inner, closer, err := lib.NewEngine(lib.EngMem, scratch)
+	if err != nil {
+		return "RPanic", false, err.Error()
+	}
+	defer closer()
+	w := &lib.Wrap{KvStorage: inner}
+	outer := imetrics.NewKvStorage(w, &lib.NopMetrics{})
+	ctx := context.Background()
+	defer func() {
+		if p := recover(); p != nil {
+			observed, errStr = "RPanic", fmt.Sprint(p)
+		}
+	}()
+	b := outer.BeginBatchWrite()
+	b.Put([]byte("a"), []byte("1"), 0)
+	if err := b.Commit(ctx); err != nil {
+		return "RPanic", false, "setup: " + err.Error()
+	}
+	it, err := outer.Iter(ctx, []byte("a"), []byte("b"), 0, 0)
+	if err != nil || it.Next(ctx) != nil {
+		return "RPanic", false, "setup iterator"
+	}
+	defer it.Close()
+	target := []string{"get", "del", "delcur", "batch", "iter"}[kind]
+	w.Before = func(k string, key []byte) error {
+		if k == target {
+			return inject
+		}
+		return nil
+	}
+	var got error
+	switch kind {
+	case 0:
+		_, got = outer.Get(ctx, []byte("a"))
+	case 1:
+		got = outer.Del(ctx, []byte("a"))
+	case 2:
+		got = outer.DelCurrent(ctx, it)
+	case 3:
+		b := outer.BeginBatchWrite()
+		b.Del([]byte("a"))
+		got = b.Commit(ctx)
+	case 4:
+		var it2 storage.Iter
+		it2, got = outer.Iter(ctx, []byte("a"), []byte("b"), 0, 0)
+		if got == nil {
+			_ = it2.Close()
+		}
+	}
+	w.Before = nil
+	observed, _, _, _, _ = classify(got)
+	if got != nil {
+		errStr = got.Error()
+	}
+	v, gerr := outer.Get(ctx, []byte("a"))
+	return observed, gerr == nil && string(v) == "1", errStr
+}
+
 func main() {
 	lib.QuietLogs()
 	args := lib.ParseArgs()
@@ -752,6 +814,25 @@ func main() {
 			}
 		}
 		closer()
+	}
+	// a failing engine under the metrics wrapper: every error class must pass through unchanged
+	injected := []struct {
+		name string
+		err  error
+	}{
+		{"not-found", storage.ErrKeyNotFound}, {"cas-failed", storage.ErrCASFailed},
+		{"conflict", storage.NewErrConflict(0, []byte("a"), []byte("1"))},
+		{"other", errors.New("engine unavailable")}, {"uncertain", storage.NewErrUncertainResult(errors.New("timeout"))},
+	}
+	for kind, kname := range []string{"get", "del", "delcurrent", "commit", "iter"} {
+		for _, in := range injected {
+			want, _, _, _, _ := classify(in.err)
+			obsd, intact, es := wrapFault(args.Scratch, kind, in.err)
+			w.Add(lib.Case{Kind: "fixed:wrapper-fault/" + kname,
+				Coq:      lib.App("KWrapFault", lib.N(uint64(kind)), want, obsd, lib.Bool(intact)),
+				JSON:     map[string]interface{}{"name": "wrapper-fault", "call": kname, "injected": in.name, "injected_class": want, "observed_class": obsd, "record_intact": intact, "err": es},
+				Outcomes: []string{"wrapfault:" + obsd}})
+		}
 	}
 	w.Stats.Extra["op_kinds"] = opKinds
 	if err := w.Finish("one case = one operation sequence (length <= 25) on one engine, starting from the emptied engine; keys from a pool of 9 (prefix-related, 0x00, 0xff), bounds from keys plus 10 in-between/outside values; non-trivial = at least two different result classes occurred in the sequence; distinct = SHA-256 of the Coq case"); err != nil {
